@@ -158,6 +158,12 @@ def run(ck):
               ("live-instance-interleaved:other-nmne-settings", {"b": dm, "b_patch": {"nmne": NMNE_ON, "no_scripted": True}, "when": "interleaved", "quiet": True}),
               ("live-instance-interleaved:stochastic-agents-shared-rng-same-nmne", {"b": dm, "b_patch": {"nmne": None}, "when": "interleaved"})]
     jobs = []
+    # an insider threat actor that works through the account changes its scenario lists (agents that consume what they were
+    # configured with must start every episode with all of it)
+    t3 = {"kind": "file", "path": world.PKG + "/uc7_config_tap003.yaml"}
+    base3 = {"a": t3, "a_patch": {"seed": 5}, "seed": 5, "reset_seed": 21, "action_seed": 8, "steps": ck.n(44, 70), "idle": True, "other": None}
+    jobs.append(("pkg/uc7_config_tap003.yaml (idle defender)", "reference", dict(base3, measure_episode=1, dirty=False)))
+    jobs.append(("pkg/uc7_config_tap003.yaml (idle defender)", "after-an-undisturbed-episode", dict(base3, measure_episode=2, dirty=False, earlier_idle_steps=ck.n(44, 70))))
     for name, sc, patch, steps in targets:
         # the NMNE settings A's own scenario asks for (None = no section): B gets the same in the "same settings" variants
         a_cfg = family.generate(sc["seed"]) if sc["kind"] == "family" else world.load_cfg(sc["path"])
